@@ -33,7 +33,18 @@ def main(argv):
     tier = argv[1]
     assert tier in ("quick", "thorough")
     ctx = lib.Ctx(pid, tier, seed)
-    return mod.run(ctx)
+    try:
+        return mod.run(ctx)
+    except Exception:       # noqa: BLE001
+        # The correspondence run itself broke down (the implementation behaved in a way the harness cannot even process).
+        # That is a broken correspondence, not a silent crash: report it, together with whatever was found before.
+        import traceback
+        tb = traceback.format_exc()
+        sys.stderr.write(tb)
+        ctx.violation("E1", "the correspondence run of this check aborted: " + tb.strip().splitlines()[-1][:200], None,
+                      found_input=False, traceback=tb[-3000:])
+        ctx.notes.append("check aborted by an exception inside the harness; coverage counts are those reached before the abort")
+        return ctx.finish(assumptions=["(run aborted)"], trusted=["harness (aborted run)"])
 
 
 if __name__ == "__main__":
